@@ -1,4 +1,5 @@
-// transparency.go: C15 — remote Kill and remote Watch between two real systems (through the same proxy).
+// transparency.go: C15 — remote Kill / Watch / Unwatch / Ping / Ask / PipeTo between three real systems (each behind
+// its own re-chunking proxy).  Implementation monitors only.
 package main
 
 import (
@@ -12,22 +13,44 @@ import (
 )
 
 type tgtLog struct {
-	mu      sync.Mutex
-	kills   []string // "killer|reason|poison"
-	killed  int      // OnKilled seen by the target itself
-	pings   int
+	mu     sync.Mutex
+	kills  []string // "killer|reason|poison"
+	killed int      // OnKilled seen by the target itself
+	pings  int
 }
 
-type watchLog struct {
+// agentLog: what an agent actor (watcher / forwarder) received
+type agentLog struct {
 	mu     sync.Mutex
-	killed []string // refs named by the OnKilled messages received
+	killed []string            // refs named by the OnKilled messages received
+	pipes  []*vivid.PipeResult // PipeResult messages received
+}
+
+func (l *agentLog) nKilled() int { l.mu.Lock(); defer l.mu.Unlock(); return len(l.killed) }
+func (l *agentLog) nPipes() int  { l.mu.Lock(); defer l.mu.Unlock(); return len(l.pipes) }
+func (l *agentLog) killedCopy() []string {
+	l.mu.Lock()
+	defer l.mu.Unlock()
+	return append([]string(nil), l.killed...)
 }
 
 type doWatch struct{ ref vivid.ActorRef }
+type doUnwatch struct{ ref vivid.ActorRef }
 type doKill struct {
 	ref    vivid.ActorRef
 	poison bool
 	reason string
+}
+type doPing struct {
+	ref vivid.ActorRef
+	out chan string
+}
+type doPipe struct {
+	to         vivid.ActorRef
+	msg        *XMsg
+	forwarders vivid.ActorRefs
+	timeout    time.Duration
+	id         chan string
 }
 
 func refStr(r vivid.ActorRef) string {
@@ -37,127 +60,379 @@ func refStr(r vivid.ActorRef) string {
 	return r.GetAddress() + r.GetPath()
 }
 
-func spawnWatcher(n *Node, name string, wl *watchLog) (vivid.ActorRef, error) {
-	return n.Sys.ActorOf(vivid.ActorFN(func(ctx vivid.ActorContext) {
+func spawnAgent(n *Node, name string, al *agentLog) vivid.ActorRef {
+	r, err := n.Sys.ActorOf(vivid.ActorFN(func(ctx vivid.ActorContext) {
 		switch m := ctx.Message().(type) {
 		case *doWatch:
 			ctx.Watch(m.ref)
+		case *doUnwatch:
+			ctx.Unwatch(m.ref)
 		case *doKill:
 			ctx.Kill(m.ref, m.poison, m.reason)
+		case *doPing:
+			t0 := time.Now()
+			p, err := ctx.Ping(m.ref, 5*time.Second)
+			switch {
+			case err != nil:
+				m.out <- "error: " + err.Error()
+			case p == nil:
+				m.out <- "nil pong"
+			case p.PingTime.Before(t0.Add(-time.Second)) || p.PingTime.After(time.Now().Add(time.Second)) || p.RespondTime.Before(p.PingTime.Add(-time.Second)) || p.RespondTime.After(time.Now().Add(time.Second)):
+				m.out <- fmt.Sprintf("implausible times: ping %v respond %v (now %v)", p.PingTime, p.RespondTime, time.Now())
+			default:
+				m.out <- ""
+			}
+		case *doPipe:
+			m.id <- ctx.PipeTo(m.to, m.msg, m.forwarders, m.timeout)
 		case *vivid.OnKilled:
 			if m.Ref != nil && !m.Ref.Equals(ctx.Ref()) {
-				wl.mu.Lock()
-				wl.killed = append(wl.killed, refStr(m.Ref))
-				wl.mu.Unlock()
+				al.mu.Lock()
+				al.killed = append(al.killed, refStr(m.Ref))
+				al.mu.Unlock()
+			}
+		case *vivid.PipeResult:
+			al.mu.Lock()
+			al.pipes = append(al.pipes, m)
+			al.mu.Unlock()
+		}
+	}), vivid.WithActorName(name))
+	if err != nil {
+		panic(err)
+	}
+	return r
+}
+
+// spawnTarget: an actor on n that records kills and answers Asks (except those with Seq = noReply)
+const noReply = 0xdead
+
+func spawnTarget(n *Node, name string, tl *tgtLog) vivid.ActorRef {
+	r, err := n.Sys.ActorOf(vivid.ActorFN(func(ctx vivid.ActorContext) {
+		switch m := ctx.Message().(type) {
+		case *vivid.OnKill:
+			tl.mu.Lock()
+			tl.kills = append(tl.kills, fmt.Sprintf("%s|%s|%v", refStr(m.Killer), m.Reason, m.Poison))
+			tl.mu.Unlock()
+		case *vivid.OnKilled:
+			tl.mu.Lock()
+			tl.killed++
+			tl.mu.Unlock()
+		case *XMsg:
+			tl.mu.Lock()
+			tl.pings++
+			tl.mu.Unlock()
+			if m.Kind == KAsk && m.Seq != noReply {
+				ctx.Reply(&XMsg{Kind: KReply, Seq: m.Seq, Data: m.Data})
 			}
 		}
 	}), vivid.WithActorName(name))
+	if err != nil {
+		panic(err)
+	}
+	return r
+}
+
+// settle: an Ask from `from` to target answers only after the system messages `from` sent to it before (Watch,
+// Unwatch: same connection, system queue first) were handled
+func settle(from *Node, target vivid.ActorRef) error {
+	_, err := from.Sys.Ask(target, &XMsg{Kind: KAsk, Seq: 1}, 5*time.Second).Result()
+	return err
 }
 
 func (h *H) runTransparency() {
-	A, err := StartNode("A", 1, nil)
-	if err != nil {
-		panic(err)
+	nodes := map[string]*Node{}
+	for _, nm := range []string{"A", "B", "C"} {
+		n, err := StartNode(nm, 1, nil)
+		if err != nil {
+			panic(err)
+		}
+		nodes[nm] = n
+		defer func() { n.Stop(); n.Proxy.Close() }()
 	}
-	defer func() { A.Stop(); A.Proxy.Close() }()
-	B, err := StartNode("B", 1, nil)
-	if err != nil {
-		panic(err)
-	}
-	defer func() { B.Stop(); B.Proxy.Close() }()
+	A, B, C := nodes["A"], nodes["B"], nodes["C"]
 	rounds := 12
 	if h.tier == "thorough" {
 		rounds = 120
 	}
 	modes := []int{ModePass, ModeOne, ModeStraddle, ModeRand}
-	for i := 0; i < rounds; i++ {
-		mode := modes[i%len(modes)]
-		plan := func(int) Plan { p := defaultPlan(); p.Mode, p.RandMax, p.Seed = mode, 9, h.seed + uint64(i); return p }
+	for i := 0; i < rounds && !h.abort; i++ {
+		mode := modes[(i/4)%len(modes)]
 		if i%4 == 0 {
-			if !h.resync(A, B, plan) || !h.resync(B, A, plan) {
-				h.o.Monitor("c15-no-connection", nil, "no connection")
-				return
-			}
-		}
-		tl := &tgtLog{}
-		tname := fmt.Sprintf("tgt%d", i)
-		tref, err := B.Sys.ActorOf(vivid.ActorFN(func(ctx vivid.ActorContext) {
-			switch m := ctx.Message().(type) {
-			case *vivid.OnKill:
-				tl.mu.Lock()
-				tl.kills = append(tl.kills, fmt.Sprintf("%s|%s|%v", refStr(m.Killer), m.Reason, m.Poison))
-				tl.mu.Unlock()
-			case *vivid.OnKilled:
-				tl.mu.Lock()
-				tl.killed++
-				tl.mu.Unlock()
-			case *XMsg:
-				tl.mu.Lock()
-				tl.pings++
-				tl.mu.Unlock()
-				if m.Kind == KAsk {
-					ctx.Reply(&XMsg{Kind: KReply, Seq: m.Seq})
+			plan := func(int) Plan { p := defaultPlan(); p.Mode, p.RandMax, p.Seed = mode, 9, h.seed+uint64(i); return p }
+			for _, pr := range [][2]*Node{{A, B}, {B, A}, {C, B}, {B, C}, {A, C}, {C, A}} {
+				if !h.resync(pr[0], pr[1], plan) {
+					h.o.Monitor("c15-no-connection", nil, "no connection "+pr[0].Name+"->"+pr[1].Name)
+					h.abort = true
+					return
 				}
 			}
-		}), vivid.WithActorName(tname))
-		if err != nil {
-			panic(err)
 		}
-		remote, _ := actor.NewRef(B.Adv, tref.GetPath())
-		rw1, rw2, lw := &watchLog{}, &watchLog{}, &watchLog{}
-		w1, _ := spawnWatcher(A, fmt.Sprintf("w1-%d", i), rw1)
-		w2, _ := spawnWatcher(A, fmt.Sprintf("w2-%d", i), rw2)
-		w3, _ := spawnWatcher(B, fmt.Sprintf("w3-%d", i), lw)
-		A.Sys.Tell(w1, &doWatch{remote})
-		A.Sys.Tell(w2, &doWatch{remote})
-		B.Sys.Tell(w3, &doWatch{tref})
-		// the Watch messages (system messages) precede this Ask on the same connection: once it is answered they are registered
-		time.Sleep(2 * time.Millisecond)
-		if _, err := A.Sys.Ask(remote, &XMsg{Kind: KAsk, Seq: uint64(i)}, 5*time.Second).Result(); err != nil {
-			h.o.Monitor("c15-remote-ask", lib.L(lib.S("round"), lib.NI(i)), fmt.Sprintf("Ask to the freshly spawned remote actor failed: %v", err))
+		if h.slowRounds >= 4 {
+			h.abort = true // the monitors have fired; further rounds would only wait again
+			break
+		}
+		h.killWatchRound(A, B, C, i, mode)
+		h.unwatchRound(A, B, C, i, mode)
+		h.pingRound(A, B, C, i, mode)
+		h.pipeRound(A, B, C, i, mode)
+	}
+}
+
+func remoteOf(n *Node, local vivid.ActorRef) vivid.ActorRef {
+	r, err := actor.NewRef(n.Adv, local.GetPath())
+	if err != nil {
+		panic(err)
+	}
+	return r
+}
+
+// killWatchRound: T on B.  Watchers: /w1-i and /w2-i on A; THE SAME PATH /watcher-i on A, on C and on B itself.
+// /w1-i on A kills T (poison on odd rounds).  Every watcher receives exactly one OnKilled naming T.
+func (h *H) killWatchRound(A, B, C *Node, i, mode int) {
+	tl := &tgtLog{}
+	tref := spawnTarget(B, fmt.Sprintf("tgt%d", i), tl)
+	remote := remoteOf(B, tref)
+	type w struct {
+		node *Node
+		name string
+		log  *agentLog
+		ref  vivid.ActorRef
+		tgt  vivid.ActorRef
+	}
+	same := fmt.Sprintf("watcher-%d", i)
+	ws := []*w{
+		{node: A, name: fmt.Sprintf("w1-%d", i), tgt: remote},
+		{node: A, name: fmt.Sprintf("w2-%d", i), tgt: remote},
+		{node: A, name: same, tgt: remote},
+		{node: C, name: same, tgt: remote},
+		{node: B, name: same, tgt: tref},
+	}
+	for _, x := range ws {
+		x.log = &agentLog{}
+		x.ref = spawnAgent(x.node, x.name, x.log)
+		x.node.Sys.Tell(x.ref, &doWatch{x.tgt})
+	}
+	time.Sleep(2 * time.Millisecond)
+	desc := lib.L(lib.S("remote-kill-watch"), lib.NI(i), lib.S(modeNames[mode]))
+	for _, x := range []struct {
+		n *Node
+		t vivid.ActorRef
+	}{{A, remote}, {C, remote}, {B, tref}} {
+		if err := settle(x.n, x.t); err != nil {
+			h.o.Monitor("c15-remote-ask", desc, fmt.Sprintf("Ask from %s to the freshly spawned actor %s failed: %v", x.n.Name, refStr(x.t), err))
+			return
+		}
+	}
+	h.o.Stats["remote-asks"] += 2
+	poison := i%2 == 1
+	reason := fmt.Sprintf("why-%d", i)
+	A.Sys.Tell(ws[0].ref, &doKill{remote, poison, reason})
+	okAll := waitUntil(5*time.Second, func() bool {
+		for _, x := range ws {
+			if x.log.nKilled() < 1 {
+				return false
+			}
+		}
+		return true
+	})
+	if !okAll {
+		h.slowRounds++
+	}
+	time.Sleep(15 * time.Millisecond) // duplicates
+	tl.mu.Lock()
+	kills := append([]string(nil), tl.kills...)
+	tl.mu.Unlock()
+	wantKill := fmt.Sprintf("%s|%s|%v", A.Adv+ws[0].ref.GetPath(), reason, poison)
+	if len(kills) != 1 || kills[0] != wantKill {
+		h.o.Monitor("c15-remote-kill", desc, fmt.Sprintf("remote Kill(%s, poison=%v, %q) from %s: the target saw OnKill %v (want exactly [%s]); watchers notified: %v", refStr(remote), poison, reason, A.Adv+ws[0].ref.GetPath(), kills, wantKill, okAll))
+	}
+	want := refStr(remote)
+	for _, x := range ws {
+		got := x.log.killedCopy()
+		if len(got) != 1 || got[0] != want {
+			h.o.Monitor("c15-remote-watch", desc, fmt.Sprintf("watcher %s%s of %s received OnKilled for %v (want exactly one naming %s); watchers with the same path /%s live on A, C and B", x.node.Adv, x.ref.GetPath(), want, got, want, same))
+		}
+	}
+	// the terminated actor is gone for remote senders too
+	tl.mu.Lock()
+	p0 := tl.pings
+	tl.mu.Unlock()
+	A.Sys.Tell(remote, &XMsg{Kind: KTell, Seq: 999})
+	time.Sleep(3 * time.Millisecond)
+	tl.mu.Lock()
+	if tl.pings != p0 {
+		h.o.Monitor("c15-killed-still-receives", desc, "a Tell after the remote kill still reached the terminated actor's behaviour")
+	}
+	tl.mu.Unlock()
+	h.o.Stats["remote-kill-watch-rounds"]++
+	h.o.Stats["watchers-checked"] += len(ws)
+	if poison {
+		h.o.Stats["poison-kills"]++
+	}
+}
+
+// unwatchRound: same-path watchers on A, C and B watch T; ONE of them unwatches; T is killed: the one that unwatched
+// hears nothing, each of the others exactly one OnKilled.
+func (h *H) unwatchRound(A, B, C *Node, i, mode int) {
+	tl := &tgtLog{}
+	tref := spawnTarget(B, fmt.Sprintf("utgt%d", i), tl)
+	remote := remoteOf(B, tref)
+	same := fmt.Sprintf("uwatcher-%d", i)
+	type w struct {
+		node *Node
+		log  *agentLog
+		ref  vivid.ActorRef
+		tgt  vivid.ActorRef
+	}
+	ws := []*w{{node: A, tgt: remote}, {node: C, tgt: remote}, {node: B, tgt: tref}}
+	for _, x := range ws {
+		x.log = &agentLog{}
+		x.ref = spawnAgent(x.node, same, x.log)
+		x.node.Sys.Tell(x.ref, &doWatch{x.tgt})
+	}
+	time.Sleep(2 * time.Millisecond)
+	desc := lib.L(lib.S("remote-unwatch"), lib.NI(i), lib.S(modeNames[mode]))
+	for _, x := range ws {
+		if err := settle(x.node, x.tgt); err != nil {
+			h.o.Monitor("c15-remote-ask", desc, fmt.Sprintf("Ask from %s failed: %v", x.node.Name, err))
+			return
+		}
+	}
+	quitter := ws[i%3]
+	quitter.node.Sys.Tell(quitter.ref, &doUnwatch{quitter.tgt})
+	time.Sleep(2 * time.Millisecond)
+	if err := settle(quitter.node, quitter.tgt); err != nil {
+		h.o.Monitor("c15-remote-ask", desc, fmt.Sprintf("Ask from %s failed: %v", quitter.node.Name, err))
+		return
+	}
+	B.Sys.Tell(ws[2].ref, &doKill{tref, false, "unwatch-round"})
+	if !waitUntil(5*time.Second, func() bool {
+		for _, x := range ws {
+			if x != quitter && x.log.nKilled() < 1 {
+				return false
+			}
+		}
+		return true
+	}) {
+		h.slowRounds++
+	}
+	time.Sleep(20 * time.Millisecond)
+	want := refStr(remote)
+	for _, x := range ws {
+		got := x.log.killedCopy()
+		if x == quitter {
+			if len(got) != 0 {
+				h.o.Monitor("c15-remote-unwatch", desc, fmt.Sprintf("watcher %s%s unwatched %s and still received OnKilled %v", x.node.Adv, x.ref.GetPath(), want, got))
+			}
 			continue
 		}
-		poison := i%2 == 1
-		reason := fmt.Sprintf("why-%d", i)
-		A.Sys.Tell(w1, &doKill{remote, poison, reason})
-		count := func(w *watchLog) int { w.mu.Lock(); defer w.mu.Unlock(); return len(w.killed) }
-		okAll := waitUntil(5*time.Second, func() bool { return count(rw1) >= 1 && count(rw2) >= 1 && count(lw) >= 1 })
-		time.Sleep(15 * time.Millisecond) // duplicates
-		desc := lib.L(lib.S("remote-kill-watch"), lib.NI(i), lib.Bool(poison), lib.S(modeNames[mode]))
-		tl.mu.Lock()
-		kills := append([]string(nil), tl.kills...)
-		tl.mu.Unlock()
-		wantKill := fmt.Sprintf("%s|%s|%v", A.Adv+w1.GetPath(), reason, poison)
-		if len(kills) != 1 || kills[0] != wantKill {
-			h.o.Monitor("c15-remote-kill", desc, fmt.Sprintf("remote Kill(%s, poison=%v, %q) from %s: the target saw OnKill %v (want exactly [%s]); watchers notified: %v", refStr(remote), poison, reason, A.Adv+w1.GetPath(), kills, wantKill, okAll))
+		if len(got) != 1 || got[0] != want {
+			h.o.Monitor("c15-remote-unwatch", desc, fmt.Sprintf("watcher %s%s kept watching %s while %s%s (same path, other system) unwatched: it received OnKilled for %v (want exactly one)", x.node.Adv, x.ref.GetPath(), want, quitter.node.Adv, quitter.ref.GetPath(), got))
 		}
-		want := refStr(remote)
-		for wi, w := range []*watchLog{rw1, rw2, lw} {
-			w.mu.Lock()
-			got := append([]string(nil), w.killed...)
-			w.mu.Unlock()
-			if len(got) != 1 || got[0] != want {
-				where := "remote"
-				if wi == 2 {
-					where = "local"
-				}
-				h.o.Monitor("c15-remote-watch", desc, fmt.Sprintf("%s watcher %d of %s received OnKilled for %v (want exactly one naming %s)", where, wi+1, want, got, want))
+	}
+	h.o.Stats["remote-unwatch-rounds"]++
+}
+
+func (h *H) pingRound(A, B, C *Node, i, mode int) {
+	tl := &tgtLog{}
+	tref := spawnTarget(B, fmt.Sprintf("ptgt%d", i), tl)
+	remote := remoteOf(B, tref)
+	desc := lib.L(lib.S("remote-ping"), lib.NI(i), lib.S(modeNames[mode]))
+	for _, n := range []*Node{A, C} {
+		ag := spawnAgent(n, fmt.Sprintf("pinger-%d", i), &agentLog{})
+		out := make(chan string, 1)
+		n.Sys.Tell(ag, &doPing{remote, out})
+		select {
+		case r := <-out:
+			if r != "" {
+				h.o.Monitor("c15-remote-ping", desc, fmt.Sprintf("Ping from %s to %s: %s", n.Name, refStr(remote), r))
 			}
+		case <-time.After(8 * time.Second):
+			h.o.Monitor("c15-remote-ping", desc, fmt.Sprintf("Ping from %s to %s did not return within 8 s", n.Name, refStr(remote)))
 		}
-		// the terminated actor is gone for remote senders too: a Tell now ends as a dead letter on B, not in the actor
-		tl.mu.Lock()
-		p0 := tl.pings
-		tl.mu.Unlock()
-		A.Sys.Tell(remote, &XMsg{Kind: KTell, Seq: 999})
-		time.Sleep(3 * time.Millisecond)
-		tl.mu.Lock()
-		if tl.pings != p0 {
-			h.o.Monitor("c15-killed-still-receives", desc, "a Tell after the remote kill still reached the terminated actor's behaviour")
+		h.o.Stats["remote-pings"]++
+	}
+}
+
+// pipeRound: an actor on A pipes an Ask to T on B to two forwarders: one on C (remote to A) and one on A (local).
+// Success: both receive PipeResult{Id, Message = T's reply}.  Failure (T does not answer, the Ask times out):
+// both must receive PipeResult{Id, Error != nil}.
+func (h *H) pipeRound(A, B, C *Node, i, mode int) {
+	tl := &tgtLog{}
+	tref := spawnTarget(B, fmt.Sprintf("pipetgt%d", i), tl)
+	remote := remoteOf(B, tref)
+	piper := spawnAgent(A, fmt.Sprintf("piper-%d", i), &agentLog{})
+	lf, rf := &agentLog{}, &agentLog{}
+	localFwd := spawnAgent(A, fmt.Sprintf("fwd-%d", i), lf)
+	remoteFwdLocal := spawnAgent(C, fmt.Sprintf("fwd-%d", i), rf)
+	remoteFwd := remoteOf(C, remoteFwdLocal)
+	for _, fail := range []bool{false, true} {
+		if fail && h.tier != "thorough" && i%4 != 0 {
+			continue // the failure case waits for a result that (currently) never comes: three times per quick run is enough
 		}
-		tl.mu.Unlock()
-		h.o.Stats["remote-kill-watch-rounds"]++
-		if poison {
-			h.o.Stats["poison-kills"]++
+		desc := lib.L(lib.S("remote-pipe"), lib.NI(i), lib.Bool(fail), lib.S(modeNames[mode]))
+		l0, r0 := lf.nPipes(), rf.nPipes()
+		msg := &XMsg{Kind: KAsk, Seq: uint64(1000 + i), Data: []byte("pipe")}
+		timeout := 5 * time.Second
+		if fail {
+			msg.Seq = noReply
+			timeout = 150 * time.Millisecond
 		}
+		idc := make(chan string, 1)
+		A.Sys.Tell(piper, &doPipe{to: remote, msg: msg, forwarders: vivid.ActorRefs{remoteFwd, localFwd}, timeout: timeout, id: idc})
+		var id string
+		select {
+		case id = <-idc:
+		case <-time.After(5 * time.Second):
+			h.o.Monitor("c15-remote-pipe", desc, "PipeTo did not return")
+			return
+		}
+		// the local forwarder has its result after at most the Ask timeout (150 ms); the remote one a round trip later
+		waitUntil(2*time.Second, func() bool { return lf.nPipes() > l0 && rf.nPipes() > r0 })
+		time.Sleep(10 * time.Millisecond)
+		check := func(where string, al *agentLog, from int) string {
+			al.mu.Lock()
+			defer al.mu.Unlock()
+			got := al.pipes[from:]
+			if len(got) != 1 {
+				return fmt.Sprintf("%s forwarder received %d PipeResults (want 1)", where, len(got))
+			}
+			p := got[0]
+			if p.Id != id {
+				return fmt.Sprintf("%s forwarder: PipeResult.Id %q, PipeTo returned %q", where, p.Id, id)
+			}
+			if fail {
+				if p.Error == nil {
+					return fmt.Sprintf("%s forwarder: failure result without Error (Message %T)", where, p.Message)
+				}
+				return ""
+			}
+			x, ok := p.Message.(*XMsg)
+			if p.Error != nil || !ok || x.Kind != KReply || x.Seq != msg.Seq || string(x.Data) != "pipe" {
+				return fmt.Sprintf("%s forwarder: success result carries Message %T %+v Error %v", where, p.Message, p.Message, p.Error)
+			}
+			return ""
+		}
+		le, re := check("local", lf, l0), check("remote", rf, r0)
+		if le != "" {
+			h.o.Monitor("c15-local-pipe", desc, le)
+		}
+		if re != "" {
+			name := "c15-remote-pipe"
+			if fail && le == "" {
+				// the local forwarder got the failure result, the remote one did not
+				name = "c15-pipe-failure-remote"
+				A.Barrier()
+				A.Ev.mu.Lock()
+				cause := "<no RemotingMessageSendFailedEvent seen>"
+				if n := len(A.Ev.SendFailed); n > 0 {
+					cause = fmt.Sprint(A.Ev.SendFailed[n-1].Error)
+				}
+				other := A.Ev.DeadOther
+				A.Ev.mu.Unlock()
+				re = fmt.Sprintf("PipeTo failure result does not reach a remote forwarder: actor on A pipes an Ask (timeout 150 ms) to an actor on B that never replies, forwarders = [actor on C, actor on A]; the local forwarder received PipeResult{Id, Error: timeout}, but the %s; A's last send-failed event: %s; non-XMsg dead letters on A so far: %d", re, cause, other)
+			}
+			h.o.Monitor(name, desc, re)
+		}
+		h.o.Stats["remote-pipes"]++
 	}
 }
